@@ -3,7 +3,7 @@
 #   (1) compiles, (2) keeps the pinned baseline green, (3) its demo fails with it and passes without.
 # Prints one summary line; exit 0 iff all confirmed.
 set -u
-OUT="$1"; I="$2"; ID="$3"
+OUT="$1"; I="$2"; ID="$3"; TP="${4:-m}"   # TP = test-name infix: demo_<ID>_<TP><I>
 WT=/tmp/confirm-wt-$ID-$I
 export CARGO_NET_OFFLINE=true RUST_BACKTRACE=0
 git -C /repo worktree remove --force "$WT" >/dev/null 2>&1
@@ -13,9 +13,9 @@ run() { unshare -rn sh -c "ip link set lo up; $*"; }
 res=""
 git apply "$OUT/m$I.demo.diff" || { echo "$ID m$I: demo diff does not apply"; git -C /repo worktree remove --force "$WT"; exit 1; }
 # demo without the mutant must pass
-if run "cargo test --offline demo_${ID}_m$I 2>&1" | grep -q "test result: ok. 1 passed"; then res="$res demo-clean=pass"; else res="$res demo-clean=FAIL"; fi
+if run "cargo test --offline demo_${ID}_${TP}$I 2>&1" | grep -q "test result: ok. 1 passed"; then res="$res demo-clean=pass"; else res="$res demo-clean=FAIL"; fi
 git apply "$OUT/m$I.patch.diff" || { echo "$ID m$I: patch does not apply"; git -C /repo worktree remove --force "$WT"; exit 1; }
-if run "cargo test --offline demo_${ID}_m$I 2>&1" | grep -q "test result: FAILED"; then res="$res demo-mutant=fail(ok)"; else res="$res demo-mutant=NOT-FAILING"; fi
+if run "cargo test --offline demo_${ID}_${TP}$I 2>&1" | grep -q "test result: FAILED"; then res="$res demo-mutant=fail(ok)"; else res="$res demo-mutant=NOT-FAILING"; fi
 # pinned baseline (38 stable tests) with the mutant but without the demo
 git checkout -q -- . ; git apply "$OUT/m$I.patch.diff"
 b=$(cargo test --offline --no-fail-fast -- command::test config::test reply::test state::structs::test utils::test 2>&1 | grep "test result")
